@@ -435,6 +435,19 @@ func (c09) Run(t *tape.Tape, cfg sim.Config) (res sim.Result) {
 		r.followUp = []int{0, 0, 0, 0, 400}
 		res.Stat("probe.focus_own_function_types", 1)
 	}
+	if len(r.forceKinds) == 0 && t.Chance(1, 8) {
+		// focus: a guest importing from a host module; the host module is dropped, collected, something else
+		// is compiled, collected again; the guest calls its import
+		r.forceKinds = []byte{'M', 'H'}
+		r.followUp = []int{0, 0, 600, 6, 0, 6, 201}
+		res.Stat("probe.focus_host_module", 1)
+	}
+	if len(r.forceKinds) == 0 && t.Chance(1, 8) {
+		// focus: an importer of nothing but A's funcref global; A is dropped and collected
+		r.forceKinds = []byte{'A', 'G'}
+		r.followUp = []int{0, 0, 600, 6, 0, 6, 201}
+		res.Stat("probe.focus_funcref_global", 1)
+	}
 	if len(r.forceKinds) == 0 && t.Chance(1, 6) {
 		// focus: a glue module copies A's function into the second owner's table; then the glue module and
 		// A are dropped, collected, something else is compiled, and the second owner calls the entry
@@ -665,6 +678,9 @@ func (r *runner) step(shared bool) {
 				}
 				if i == r.curU {
 					r.curU = -1
+				}
+				if i == r.curM {
+					r.curM = -1
 				}
 			}
 			if in.compiled != nil {
